@@ -10,6 +10,12 @@ KNOWN_FINDINGS = [
      "what": "Bind allocates a fresh IP for a pod of a sized pool without consulting the size: a pod filtered while no Pool "
              "object was visible (so filter did not allocate) is bound after the Pool(size 1) appeared and brings the pool to 2 "
              "IPs; witness pool_cap_refuted_late_pool, scenario K2-late-pool-object"},
+    {"id": "K8", "status": "fixed", "commit": "4c73f0e", "tag": "c07-pool-request-not-one-section",
+     "what": "fixed: property=C07 4c73f0e POST /v1/pool wrote the Pool object and only then took the pool lock for the "
+             "pre-allocation, which uses the size of its OWN request: a second request for the pool (a shrink to 1) that got in "
+             "right after the first one's Create / Update was answered first, and the first then pre-allocated 5 IPs while the size "
+             "in force was 1 (scenarios two-writers-of-the-pool:create|update:request:*); after the repair the whole request is "
+             "one section under the pool mutex - which is what the model's atomic PApiPool step assumes"},
     {"id": "F10", "status": "fixed", "commit": "8bbc8a6", "tag": "c07-size-read-before-lock",
      "what": "fixed: property=C07 8bbc8a6 filter read the pool size before taking the pool lock, so a shrink that landed in between "
              "was ignored; after the repair reading the size, counting and allocating are one section under the pool lock, which is "
@@ -30,9 +36,10 @@ MANIFEST = {
             "proved as pool_cap_refuted_late_pool and reproduced on the real code. Tied to the code by pool scenario + random "
             "histories (real Filter/Bind and the real PoolController.CreateOrUpdate) vs the model step by step and by the cap "
             "predicate on the implementation's dumps after every step.",
-    "note": "trusted: Coq kernel (no axioms); harness fakes; section atomicity: filter (after fix 8bbc8a6) and preAllocateIP hold the "
-            "pool mutex from reading the size to allocating, so concurrent requests serialise - real goroutine interleavings are not "
-            "explored; pool names are '_'-free (K4); the Pool object reaches galaxy-ipam through its lister (EPoolSet)",
+    "note": "trusted: Coq kernel (no axioms); harness fakes; section atomicity: filter (after fix 8bbc8a6) and the pool request "
+            "(after fix 4c73f0e: from writing the Pool object to pre-allocating) hold the pool mutex, so concurrent requests "
+            "serialise - probed on the code by stopping a request between two of its calls (a second request / a Filter / another "
+            "writer of the object arrives meanwhile), other goroutine interleavings are not explored; pool names are '_'-free (K4); the Pool object reaches galaxy-ipam through its lister (EPoolSet)",
 }
 
 
